@@ -118,6 +118,7 @@ fixed("C02", "D11", "^fix: reset --soft/--mixed keeps pending", "pending AI line
 fixed("C02", "D25", "^fix: bare 'git stash' takes", "bare `git stash` (implicit push) skipped the pre-stash human checkpoint that `git stash push` runs, so a person's unreported insertion above pending AI lines left stale line numbers in the stash note and an AI line came back human after pop", "c02.bare_stash_after_unreported_human_edit")
 
 fixed("C12", "D46", "^fix: notes search pins --no-color", "with color.ui=always (or color.grep=always) a rebase that takes the full replay (upstream changed the same file above the AI lines) wrote notes listing the session but with an empty prompts object: grep_ai_notes parsed coloured `git grep` output and found nothing (hash without prompt record; result depends on git configuration)", "c12.color_ui_always_hides_prompt_records_in_rebased_notes")
+fixed("C03", "D47", "^fix: blaming an empty commit range", "main holds S1's lines 6-7 right below a person's line 5; on a branch the person (no agent) inserts a token into line 5 and deletes line 4; `git merge --squash br`; commit => the person's line (now line 4) was committed as S1's: the target side was blamed over the empty range X..X, for which git silently blames the work tree, so S1's line numbers were off by the lines removed above them", "c03.squash_person_modifies_line_above_ai_block")
 open_("C11", "D8", "C11/not-serializable@overlapping-journal-windows", [],
       "schedule: two `git-ai checkpoint` processes (agents S1 on a.txt, S2 on b.txt) both pass their read of .git/ai/working_logs/<HEAD>/checkpoints.jsonl before either writes it back (append_checkpoint and post-commit read-modify-write the journal with no lock) => the later write drops the other record and that agent's line is committed as human; identified by call site: any non-serializable outcome whose schedule has two journal read..exit windows overlapping is counted as this finding",
       "c11.two_checkpoints_both_read_before_either_writes", [])
